@@ -118,6 +118,15 @@ SCHED_DIRECTED = [
 ]
 
 
+EXPLORE = [
+    # (case, preemption bound quick, bound thorough): every schedule up to the bound (support for the tie, never the theorem)
+    ("sched,n=1,bar=1,seed=-,sch=|0:r:0;1:r:1;0:s:0;0:s:0;1:s:1;0:u:0", 1, 2),          # deferred + pending + blocked unregister
+    ("sched,n=1,bar=0,seed=-,sch=|0:r:0;1:r:1;0:s:0;1:s:1;1:s:1", 1, 2),                # Shutdown() racing with submissions
+    ("sched,n=2,bar=1,seed=-,sch=|0:r:0;1:r:1;0:s:0;1:s:1;0:s:0;1:u:1;1:r:1;1:s:1", 1, 2),
+    ("sched,n=2,bar=1,seed=-,sch=|0:r:0;1:r:1;2:r:2;0:s:0;1:s:1;2:s:2", 0, 1),
+]
+
+
 def thread_hooks_present():
     try:
         return "MUSCLE_VERIF_THREAD_START" in open(os.path.join(vlib.REPO, "system", "Thread.cpp")).read()
@@ -281,6 +290,18 @@ class CHECK(vlib.Check):
             for body in SCHED_DIRECTED:
                 for _ in range(8 if tier == "quick" else 60):
                     out.append(("sched", body % rng.randint(1, 10 ** 9)))
+            if getattr(self, "_sched", None) and not getattr(self, "_explore_emitted", False):
+                import subprocess
+                env = dict(os.environ); env.update(vlib.SAN_ENV)
+                for (line, bq, bt) in EXPLORE:
+                    bound, cap = (bq, 150) if tier == "quick" else (bt, 3000)
+                    try:
+                        p = subprocess.run([self._sched, "--explore", str(bound), str(cap)], input=line + "\n", stdout=subprocess.PIPE,
+                                           stderr=subprocess.PIPE, text=True, env=env, timeout=1200)
+                        out += [("sched-exhaustive", l) for l in p.stdout.splitlines() if l.startswith("sched,")]
+                    except subprocess.TimeoutExpired:
+                        pass
+                self._explore_emitted = True
         n = 900 if tier == "quick" else 9000
         for i in range(n):
             nclients = rng.choice([1, 2, 2, 3, 3, 4, 4])
